@@ -48,6 +48,19 @@ func genC05(c *Ctx) {
 		b := be(v, 32)
 		c.Case("bls-sk-boundary", "fr.dec "+hx(b), decPriv(bls, b))
 	}
+	// scalars on limb boundaries, reduced (accepted) and not reduced (r + k: rejected); a limb-wise comparison with r
+	// that goes wrong when two limbs differ by 2^63 or more would accept the latter
+	for limb := 0; limb <= 3; limb++ {
+		for _, top := range []uint{63, 62, 0} {
+			k := new(big.Int).Lsh(big.NewInt(1), uint(64*limb)+top)
+			for _, v := range []*big.Int{k, new(big.Int).Sub(k, big.NewInt(1)), new(big.Int).Add(blsR, k), new(big.Int).Add(blsR, new(big.Int).Sub(k, big.NewInt(1)))} {
+				if v.BitLen() <= 256 {
+					b := be(v, 32)
+					c.Case("bls-sk-limb-boundary", "fr.dec "+hx(b), decPriv(bls, b))
+				}
+			}
+		}
+	}
 	for l := 0; l <= 200; l++ {
 		if l == 32 {
 			continue
@@ -234,6 +247,29 @@ func genC05(c *Ctx) {
 	for i := 0; i < nRand; i++ {
 		k := c.randScalar()
 		c.Case("pk-of-scalar", "pk.of 0x"+k.Text(16), "ok "+hx(pkOf(k)))
+	}
+	// non-reduced abscissas on limb boundaries: x = k with 64-bit limbs of the form 2^63 + small above zero limbs, the valid
+	// encoding of k must round-trip and the encoding of p + k (same point, abscissa not reduced) must be rejected; a
+	// limb-wise comparison with p that goes wrong when two limbs differ by 2^63 or more would accept it
+	for limb := 0; limb <= 4; limb++ {
+		for _, top := range []uint{63, 62} {
+			k := new(big.Int).Lsh(big.NewInt(1), uint(64*limb)+top)
+			if limb > 0 && top == 63 {
+				k.Add(k, new(big.Int).Lsh(big.NewInt(1), uint(64*(limb-1))+63)) // two adjacent high bits
+			}
+			enc := askBytes("e1 lift 0x" + k.Text(16))
+			if len(enc) != 48 {
+				continue
+			}
+			c.Case("sig-limb-abscissa", "e1.dec "+hx(enc), sigParse(enc))
+			x := new(big.Int).SetBytes(append([]byte{enc[0] & 0x1f}, enc[1:]...))
+			xp := new(big.Int).Add(x, blsP)
+			if xp.BitLen() <= 381 {
+				o := be(xp, 48)
+				o[0] |= enc[0] & 0xe0
+				c.Case("sig-limb-abscissa-plus-p", "e1.dec "+hx(o), sigParse(o))
+			}
+		}
 	}
 	// encodings of keys of every provenance: the point is held in non-affine coordinates after a removal, in the
 	// key shares of threshold key generation, in aggregated keys; the bytes must be those of the affine point,
